@@ -735,6 +735,7 @@ func init() {
 			c.ResolvedName("C18")
 			c.LosslessSplit("C18")
 			c.ListRuleApproves("C18")
+			c.IdentitySource("C19") // "permitted" is judged under the name the connection authenticated with
 			c.RulerPositions("C18") // the ruler leaves the request (the path list the lister is iterating over) as it was handed over
 			c.CredentialsRequestScoped("C19") // every decision is taken under the request's own authenticated name
 			c.CheckSemantics("C07") // "permitted" is what the permission checker answers for the account's name
